@@ -168,7 +168,7 @@ PROPS = {
                            'syntactic and name-based. ') + LEDGER_NOTE,
             'not_decided': ['delta <= 1e10 with a regulariser (tau has no positive lower bound)', 'recorded best objective never increases (follows from C04, not re-proved here)',
                             'number of interpolation points between 2 and the maximum']},
-    'C06': {'bundles': ['passthru', 'box', 'owner', 'ledger'], 'level': 'proof',
+    'C06': {'bundles': ['passthru', 'box', 'owner', 'ledger', 'vecs'], 'level': 'proof',
             'level_text': 'Narrow claim. (i) Pass-through: at every call of h (17 sites) and of prox_uh (in the nested gradient_Fu) the call has the shape h(x, *argsh) / prox_uh(x, u, *argsprox) '
                           'with exactly the tuples the caller gave to solve (ghost tokens followed through solve -> solve_main -> Controller -> Model / model_value / ctrsbox_sfista, constructor and '
                           'keyword bindings included), and the starred calls conform for tuples of any length. (ii) True box: every projector handed to the regularised subproblem returns the absolute '
